@@ -2231,4 +2231,96 @@ theorem readHeaders_step_empty (f : Nat) (i : Inp) (h : Dic) (ln lv n tail : Byt
   · exact hrest
 
 
+
+/-! ### suffix ranges, chunked client requests -/
+
+
+theorem suffix_range (n k : Nat) :
+    rangeOf n (suffixRange n k).1 (suffixRange n k).2 = if k = 0 ∨ n = 0 then none else some (n - min k n, n - 1) := by
+  unfold suffixRange rangeOf
+  by_cases hk : k = 0 ∨ n = 0
+  · simp only [hk, if_true]
+    have : ((-1 : Int) = 0) = False := by simp
+    simp only [this, if_false]
+    have h : ((-1 : Int) < (if k ≥ n then (0 : Int) else (n : Int) - k) ∨ (if k ≥ n then (0 : Int) else (n : Int) - k) < 0 ∨ (-1 : Int) ≥ n) := by
+      left; split <;> omega
+    simp only [h, if_true]
+  · simp only [hk, if_false]
+    have hk' : 0 < k ∧ 0 < n := by omega
+    have hne : ¬ ((n : Int) - 1 = 0) ∨ n = 1 := by omega
+    by_cases h1 : (n : Int) - 1 = 0
+    · -- n = 1: (0, 0), read as "to the end" = byte 0
+      have hn : n = 1 := by omega
+      subst hn
+      have hkn : k ≥ 1 := hk'.1
+      simp [hkn]
+    · simp only [h1, if_false]
+      have hc : ¬ ((n : Int) - 1 < (if k ≥ n then (0 : Int) else (n : Int) - k) ∨ (if k ≥ n then (0 : Int) else (n : Int) - k) < 0 ∨ (n : Int) - 1 ≥ n) := by
+        split <;> omega
+      simp only [hc, if_false]
+      congr 1
+      split
+      · rename_i h; simp only [Int.toNat_zero, Prod.mk.injEq]; constructor <;> omega
+      · rename_i h; simp only [Prod.mk.injEq]; constructor <;> omega
+
+
+
+
+theorem dicRemove_absent {d : Dic} {K : Bytes} (h : ∀ x ∈ d, x.1 ≠ K) : dicRemove d K = d := by
+  induction d with
+  | nil => rfl
+  | cons kv t ih =>
+    obtain ⟨k', v'⟩ := kv
+    have h0 : ¬ k' = K := h (k', v') List.mem_cons_self
+    simp only [dicRemove, h0, if_false]
+    rw [ih (fun x hx => h x (List.mem_cons_of_mem _ hx))]
+
+/-- the request headers of a client asked to send chunked (`Transfer-Encoding: chunked` set on a canonical dictionary
+without framing headers): nothing to remove, chunk framing chosen, and the reader will see the chunked framing -/
+theorem client_chunked_framed (hs0 : Dic) (hh : Canon hs0) (hnf : NoFraming hs0) (hostport body : Bytes) (hhp : hostport ≠ []) :
+    teChunked (header (setHeader hs0 sTransferEncoding sChunked) sTransferEncoding) = true ∧
+    clientChunkedHeaders (setHeader hs0 sTransferEncoding sChunked) = setHeader hs0 sTransferEncoding sChunked ∧
+    isChunked (setHeader hs0 sTransferEncoding sChunked) = true ∧
+    Canon (setHeader hs0 sTransferEncoding sChunked) ∧
+    Framed sendBlock (norm ((sHostName, hostport) :: setHeader hs0 sTransferEncoding sChunked))
+      (writeBody true sendBlock body ++ lastChunk) body := by
+  have hD : Canon (setHeader hs0 sTransferEncoding sChunked) :=
+    canon_setHeader hh wf_name_te wf_value_chunked (by unfold FitsLine; decide)
+  have hte : dicGet (setHeader hs0 sTransferEncoding sChunked) sTransferEncoding = some sChunked := by
+    have := dicGet_setHeader_same hs0 sTransferEncoding sChunked (by decide)
+    rwa [cap_te] at this
+  have hkeys : ∀ x ∈ setHeader hs0 sTransferEncoding sChunked, x.1 ≠ sContentLength := by
+    intro x hx
+    rw [setHeader_of_value (by decide), cap_te] at hx
+    rcases mem_dicSet hx with h | h
+    · subst h; decide
+    · exact canon_key_ne hh (fun y hy => (hnf y hy).1) x h
+  have hcl : dicGet (setHeader hs0 sTransferEncoding sChunked) sContentLength = none := dicGet_none_of_keys hkeys
+  refine ⟨?_, ?_, ?_, hD, ?_⟩
+  · rw [(header_of_dicGet cap_te hte).1]; decide
+  · unfold clientChunkedHeaders setHeader
+    simp only [List.isEmpty_nil, if_true, cap_cl]
+    exact dicRemove_absent hkeys
+  · unfold isChunked; rw [(header_of_dicGet_none cap_cl hcl).1]; rfl
+  · obtain ⟨l1, l2, he, hl1, hl2⟩ := dicSet_split hs0 sTransferEncoding sChunked
+    have hlist : (sHostName, hostport) :: setHeader hs0 sTransferEncoding sChunked =
+        ((sHostName, hostport) :: l1) ++ (sTransferEncoding, sChunked) :: l2 := by
+      rw [setHeader_of_value (by decide), cap_te, he]; rfl
+    have f1 := header_norm_found sTransferEncoding cap_te ((sHostName, hostport) :: l1) l2 sTransferEncoding sChunked (by decide) cap_te
+      (fun x hx => ⟨(hh.wf x (hl2 x hx)).2.1.1, (hnf x (hl2 x hx)).2⟩)
+    have f2 := header_norm_absent sContentLength cap_cl (((sHostName, hostport) :: l1) ++ (sTransferEncoding, sChunked) :: l2) (by
+      intro x hx
+      rcases List.mem_append.mp hx with h | h
+      · rcases List.mem_cons.mp h with h | h
+        · subst h; exact ⟨hhp, cap_host_ne.1⟩
+        · exact ⟨(hh.wf x (hl1 x h)).2.1.1, (hnf x (hl1 x h)).1⟩
+      · rcases List.mem_cons.mp h with h | h
+        · subst h; exact ⟨by decide, by decide⟩
+        · exact ⟨(hh.wf x (hl2 x h)).2.1.1, (hnf x (hl2 x h)).1⟩)
+    rw [hlist]
+    have := Framed.chunked (blk := sendBlock) [body] f2.1 (by rw [f1.2]; decide)
+    simpa using this
+
+
+
 end AslProofs.HttpFrame
